@@ -71,3 +71,13 @@ let explore ~v0 (nlists : int) (keys : int list) (max_states : int) =
     bfs ~header ~init:(sys_init (nat_of_int nlists)) ~ops:(L.rev !ops) ~step:(step key v0)
       ~max_states ~prefix:"bfs" stdout in
   Printf.eprintf "states %d transitions %d closed %b\n" st tr closed
+
+let () =
+  register "slist" (fun argv -> main ~v0:false (input_of argv 2));
+  register "slist_v0" (fun argv -> main ~v0:true (input_of argv 2));
+  let bfs v0 argv =
+    (* slist-bfs <nlists> <max_states> k0 k1 ... *)
+    let keys = L.map int_of_string (Array.to_list (Array.sub argv 4 (Array.length argv - 4))) in
+    explore ~v0 (int_of_string argv.(2)) keys (int_of_string argv.(3)) in
+  register "slist-bfs" (bfs false);
+  register "slist_v0-bfs" (bfs true)
